@@ -76,6 +76,60 @@ def _dtype_entry(node) -> tuple[str, int]:
     return {"int": "i", "uint": "u", "float": "f"}[m.group(1)], int(m.group(2)) // 8
 
 
+# ---------------------------------------------------------------- dtype handed to numpy by the three value readers
+
+_VALUE_READERS = (("ascii", "_get_inline_ascii_data_array_values", "fromstring"),
+                  ("binary", "_get_inline_binary_data_array_values", "frombuffer"),
+                  ("appended", "_get_appended_data_array_values", "frombuffer"))
+
+
+def _dtype_uses_byte_order(cls: ast.ClassDef, method: str, npfunc: str) -> bool:
+    """Does the dtype argument of the `np.<npfunc>(…)` call in `cls.method` depend on the file's byte order
+    (`self._byte_order` / `.newbyteorder(…)`), directly, through local variables, or through other methods /
+    properties of the class (followed transitively)?  Anything that does not have this shape is rejected."""
+    methods = {n.name: n for n in cls.body if isinstance(n, ast.FunctionDef)}
+    if method not in methods:
+        raise Untranslatable(f"{cls.name}.{method} not found")
+    fn = methods[method]
+    calls = [n for n in ast.walk(fn) if isinstance(n, ast.Call) and isinstance(n.func, ast.Attribute)
+             and n.func.attr == npfunc and isinstance(n.func.value, ast.Name) and n.func.value.id == "np"]
+    if len(calls) != 1:
+        raise Untranslatable(f"{cls.name}.{method}: expected exactly one np.{npfunc} call, found {len(calls)}")
+    call = calls[0]
+    dt = next((k.value for k in call.keywords if k.arg == "dtype"), None)
+    if dt is None:
+        if len(call.args) < 2:
+            raise Untranslatable(f"{cls.name}.{method}: np.{npfunc} without dtype")
+        dt = call.args[1]
+
+    def local_env(f):
+        env = {}
+        for n in ast.walk(f):
+            if isinstance(n, ast.Assign) and len(n.targets) == 1 and isinstance(n.targets[0], ast.Name):
+                env.setdefault(n.targets[0].id, []).append(n.value)
+        return env
+
+    seen = set()
+
+    def uses(node, env) -> bool:
+        for n in ast.walk(node):
+            if isinstance(n, ast.Attribute) and n.attr in ("_byte_order", "newbyteorder", "byteswap"):
+                return True
+            if isinstance(n, ast.Attribute) and isinstance(n.value, ast.Name) and n.value.id == "self" \
+                    and n.attr in methods and n.attr not in seen:
+                seen.add(n.attr)
+                m = methods[n.attr]
+                if any(uses(st, local_env(m)) for st in m.body):
+                    return True
+            if isinstance(n, ast.Name) and n.id in env:
+                vals = env.pop(n.id)
+                if any(uses(v, env) for v in vals):
+                    return True
+        return False
+
+    return uses(dt, local_env(fn))
+
+
 def extract(src) -> dict:
     enc = ast.parse(src("fieldcompare/io/vtk/_encoders.py"))
     classes = {n.name: n for n in enc.body if isinstance(n, ast.ClassDef)}
@@ -98,6 +152,11 @@ def extract(src) -> dict:
     if table is None:
         raise Untranslatable("_VTK_TYPE_TO_DTYPE not found")
     facts["vtk_types"] = table
+    reader = ast.parse(src("fieldcompare/io/vtk/_xml_reader.py"))
+    rcls = next((n for n in reader.body if isinstance(n, ast.ClassDef) and n.name == "VTKXMLReader"), None)
+    if rcls is None:
+        raise Untranslatable("class VTKXMLReader not found")
+    facts["dtype_byte_order"] = [[key, _dtype_uses_byte_order(rcls, meth, npf)] for key, meth, npf in _VALUE_READERS]
     return facts
 
 
@@ -110,4 +169,8 @@ def render(facts: dict) -> str:
         f"def encodedBytesRaw (n : Int) : Int := {facts['encoded_bytes_raw']}",
         "/-- _VTK_TYPE_TO_DTYPE: (VTK name, kind i/u/f, item size in bytes) -/",
         f"def vtkTypes : List (String × String × Nat) := [{rows}]",
+        "/-- per value reader of VTKXMLReader (ascii / inline binary / appended): does the dtype handed to numpy",
+        "    depend on the file's byte_order attribute?  (from the source text, helper methods followed) -/",
+        "def vtkDtypeByteOrder : List (String × Bool) := ["
+        + ", ".join(f'("{k}", {"true" if v else "false"})' for k, v in facts["dtype_byte_order"]) + "]",
     ]) + "\n"
